@@ -135,7 +135,7 @@ class ClientEnv:
             if not isinstance(d, VBytes):
                 raise PyRaise(VExc("TypeError", VStr("bytes expected"), origin="transport.write"))
             ctx.oblige(f"{E.current_top}/transport.write/requires/C11: nothing is sent before the peer's certificate passed pin verification",
-                       z3.Or(z3.Not(tofu_mode(ctx)), ctx.ghost.get("g_verified", z3.BoolVal(False))))
+                       z3.Or(z3.Not(tofu_mode(ctx)), ctx.ghost.get("g_verified", z3.BoolVal(False))), assume=False)
             out, closed = ctx.getf(t, "g_out").z, ctx.getf(t, "g_closed").z
             ctx.setf(t, "g_out", VBytes(z3.If(closed, out, z3.Concat(out, d.z))))
             ctx.heap[t.oid].setdefault("g_writes", [])
@@ -190,6 +190,7 @@ class ClientEnv:
 
 def add_targets(E, spec, pid, classes=(GP, TPc)):
     env = ClientEnv(E)
+    E._client_env = env
     contracts = {}
     for cls in classes:
         for m in ("_parse_header", "_set_error", "send_request"):
